@@ -225,6 +225,7 @@ def check(prop, tier):
         ntx2, distinct, samples = nontrivial_stats(files)
         if prop == "C01":
             readers_part(binary, tier, sd, d, rep)
+            faults_part(binary, tier, sd, d, rep)
         if prop == "C14":
             many_goroutines_part(binary, tier, sd, d, rep)
         rep.coverage.update(
@@ -267,6 +268,30 @@ def readers_part(binary, tier, sd, d, rep):
             rep.violation(dict(formula=f, reader=True), dict(kind="readers", property="C01", formula=f, sample=line),
                           "reader sample violates %s: %s" % (f, json.dumps(line)[:300]))
     rep.coverage["reader_samples"] = nsamples
+
+
+def faults_part(binary, tier, sd, d, rep):
+    """C01 under handler faults: "for all ... handler panics/timeouts" - the fault
+    enumeration of C08 (one run per handler call x {panic, stall}), judged by the
+    C01 formulas: parity and agreement of the views after every recovery."""
+    plan = [("s2", 25, False), ("rnd", 15, False)] if tier == "quick" else \
+           [("s2", 250, False), ("rnd", 200, False), ("rnd", 100, True)]
+    files = []
+    inj = 0
+    for k, (mode, n, pairs) in enumerate(plan):
+        pref = os.path.join(d, "c01fe%d" % k)
+        cmd = [binary, "faultenum", "-mode", mode, "-n", str(n), "-seed", str(sd * 100 + 50 + k),
+               "-out", pref]
+        if pairs:
+            cmd.append("-pairs")
+        rc, out = run(cmd, timeout=3000)
+        if rc != 0:
+            raise Inconclusive("faultenum failed: " + out[-2000:])
+        inj += json.loads(out.strip().splitlines()[-1])["injections"]
+        files += sorted(glob.glob(pref + ".*.ndjson"))
+    lines, ntx = validate("C01", files, rep)
+    rep.coverage["fault_injections_judged"] = inj
+    rep.coverage["fault_transitions_judged"] = ntx
 
 
 def many_goroutines_part(binary, tier, sd, d, rep):
